@@ -135,3 +135,10 @@ prop("C20", "proof",
      "Units whose text carries no cfg gate are listed as feature-independent (mechanical check).",
      ["tokenizer hooks (ArgScanner)", "ParseOrElse / this_or_that_picks_first completion pass (assumed in the autocomplete configuration)", "ParseCommand/ParseFlag gated branches", "docgen/batteries/derive/colour features"],
      note=VERUS_NOTE, needs_autocomplete=True)
+
+prop("C19", "proof",
+     "window arithmetic of adjacent groups: ArgRangesIter::next proposes exactly the available items of the current scope, in command-line order, each with a sub-state starting at the candidate "
+     "(proved; this obligation exposed defect D8, fixed in e444188); set_scope / adjacently_available_from / adjacent_scope are checked by Kani within 3 items. "
+     "ParseAdjacent::eval itself (two-pass parse, scope trimming) is a for-loop over a custom iterator and is not under contract.",
+     ["ParseAdjacent::eval (src/structs.rs:1126-1219) and adjacent ParseCommand: not under contract", "set_scope/adjacently_available_from/adjacent_scope: bounded (3 items) only"],
+     note=VERUS_NOTE)
